@@ -248,4 +248,35 @@ def expectedCloseCalls : List String := [
   "self.heartbeat.stop()", "self._channel0.send_close_connection()",
   "self._wait_for_connection_state(state=Stateful.CLOSED)", "self._io.close()"]
 
+/-! ## `stop()` / `start()` from another thread while a check is running
+
+    `stop` and `start` do their counter work under `_lock`, which the running check holds from the
+    read test to the end of its `finally`.  They can therefore fall before the check takes the lock
+    (`pc = sent`) or after it released it (`pc = cleared`), never in between.  The check itself goes
+    on where it was: it has already passed its `_running` test. -/
+
+/-- `a` (a `stop` or a `start`) performed by another thread at a point where the running check does
+    not hold the lock -/
+def stepMid (s : St) (a : Act) : Option St :=
+  if s.pc = .sent ∨ s.pc = .cleared then
+    (step { s with pc := .idle } a).map (fun s' => { s' with pc := s.pc })
+  else none
+
+inductive XAct
+  | base (a : Act)
+  | midStop
+  | midStart (list : Bool)
+deriving DecidableEq, Repr
+
+def stepX (s : St) : XAct → Option St
+  | .base a => step s a
+  | .midStop => stepMid s .stop
+  | .midStart l => stepMid s (.start l)
+
+def runX (s : St) : List XAct → Option St
+  | [] => some s
+  | a :: as => match stepX s a with
+    | some s' => runX s' as
+    | none => none
+
 end Amqp.Hb
